@@ -16,7 +16,7 @@ UNITS = ['seconds', 'bytes', 'ratio', 'total_x']
 LEGACY_PARTS = ['http', 'req', 'mem', 'cpu', 'x', 'q9', 'A', 'node:load', 'z_z']
 UTF8_NAMES = ['my.metric', 'métrique', 'a b', 'with"quote', 'back\\slash', 'new\nline', '温度', 'dash-ed', '😀x']
 LABEL_NAMES = ['a', 'b_1', 'job', 'instance', 'code', 'l9', '_x']
-UTF8_LABEL_NAMES = ['la.bel', 'é', 'a b', 'q"q']
+UTF8_LABEL_NAMES = ['la.bel', 'é', 'a b', 'q"q', 'b\\s']
 LABEL_VALUES = ['', 'x', 'GET', '200', 'a b', 'a,b', 'a=b', '{x}', 'é', '😀', 'q"uote', 'back\\slash', 'new\nline', ' # ', '#', '}',
                 '\\n', 'tab\tx', '\xa0']
 HELP_TEXTS = ['', 'help', 'some help text', 'with "quotes"', 'back\\slash', 'new\nline', ' lead', 'trail ', 'é😀', '# EOF', '\\n',
@@ -41,6 +41,23 @@ def is_legacy_label(name):
     return re.fullmatch(r'[a-zA-Z_][a-zA-Z0-9_]*', name) is not None and not name.startswith('__')
 
 
+class RawKey(str):
+    """a label name with a prescribed spelling of its name token (`raw`), e.g. a legacy name written quoted"""
+    def __new__(cls, name, raw):
+        o = str.__new__(cls, name)
+        o.raw = raw
+        return o
+
+    def __deepcopy__(self, memo):
+        return RawKey(str(self), self.raw)
+
+
+def key_token(k):
+    if isinstance(k, RawKey):
+        return k.raw
+    return k if is_legacy_label(k) else '"%s"' % esc(k)
+
+
 class SampleLine:
     def __init__(self, name, labels, value, ts=None, exemplar=None):
         self.name = name            # full sample name (family name + suffix)
@@ -54,8 +71,7 @@ class SampleLine:
         if not is_legacy(self.name):
             items.append('"%s"' % esc(self.name))
         for k, v in self.labels:
-            kk = k if is_legacy_label(k) else '"%s"' % esc(k)
-            items.append('%s="%s"' % (kk, esc(v)))
+            items.append('%s="%s"' % (key_token(k), esc(v)))
         head = self.name if is_legacy(self.name) else ''
         if items:
             head += '{' + ','.join(items) + '}'
@@ -64,7 +80,7 @@ class SampleLine:
             out += ' ' + self.ts
         if self.exemplar is not None:
             ls, v, t = self.exemplar
-            out += ' # {' + ','.join('%s="%s"' % (k if is_legacy_label(k) else '"%s"' % esc(k), esc(x)) for k, x in ls) + '} ' + v
+            out += ' # {' + ','.join('%s="%s"' % (key_token(k), esc(x)) for k, x in ls) + '} ' + v
             if t is not None:
                 out += ' ' + t
         return out
